@@ -169,9 +169,25 @@ def main():
             k["property"] = pid
     baseline_path = os.path.join(HERE, "baseline", "obligations.json")
     baseline = json.load(open(baseline_path)) if os.path.exists(baseline_path) else {}
+    unit_sha = {u: f.get("sha256") for rep in reports for u, f in rep["functions"].items()}
+    loops = {}
+    for rep in reports:
+        for u, d in (rep.get("loops") or {}).items():
+            loops.setdefault(u, {}).update({str(k): bool(v) for k, v in d.items()})
     if a.update_baseline:
         baseline[pid] = sorted(k for k, v in proof_obls.items() if re.search(r"/(post#|inv_|pre@|frame|assert#|decreases|raises#)", k))
+        baseline.setdefault("_sha256", {})[pid] = unit_sha
+        baseline.setdefault("_loops", {})[pid] = loops
         json.dump(baseline, open(baseline_path, "w"), indent=1, sort_keys=True)
+    base_sha = baseline.get("_sha256", {}).get(pid, {})
+    base_loops = baseline.get("_loops", {}).get(pid, {})
+    # units whose SOURCE differs from the tree the baseline was taken on
+    changed_units = {u for u, h in unit_sha.items() if u in base_sha and base_sha[u] != h}
+    # ... and whose proof STRUCTURE no longer matches the contract: its loops (number, and which of them the contract has an invariant
+    # for — invariants are attached by loop ordinal) differ from the baseline's, or (below) baseline obligations are no longer
+    # generated.  Refutations of such a unit are counter-models of a loop-cut abstraction that no longer fits, not of the code: they
+    # count only if they replay natively.  A changed unit with the same loop profile is judged as before.
+    restructured = {u for u in changed_units if loops.get(u, {}) != base_loops.get(u, {})}
 
     exit_code = 0
     lines = []
@@ -182,11 +198,16 @@ def main():
         checker_errors.append("zero proof obligations generated")
     located = {f for rep in reports for f in rep["functions"]}
     undec_names = {u["unit"] for u in undec_units}
+    restructured_missing = []
     for oid in baseline.get(pid, []):
         unit = oid.split("/")[0]
         if oid not in agg and unit not in undec_names and (unit in located or unit in {x["unit"] for rep in reports for x in rep["units"]}):
             if not re.search(r"/pre@", oid):
-                checker_errors.append(f"baseline obligation {oid} was not generated")
+                if unit in changed_units:
+                    restructured.add(unit)  # the code of the unit changed and so did the shape of its proof: undecided, not a checker error
+                    restructured_missing.append(oid)
+                else:
+                    checker_errors.append(f"baseline obligation {oid} was not generated")
     units_with_canary = {}
     for k, v in live_obls.items():
         if v["kind"] == "canary":
@@ -212,7 +233,10 @@ def main():
     known_printed = []
     internal_broken = []
     # contract-level refutations of a unit whose own invariants broke are only trusted when they replay natively
-    broken_units = {v["unit"] for v in refuted if is_proof_internal(v)}
+    broken_units = {v["unit"] for v in refuted if is_proof_internal(v)} | restructured
+    for u in sorted(restructured):
+        lines.append(f"UNDECIDED property={pid} obligation={u}/* reason=the code of {u} changed and its loops no longer match the contract's invariants "
+                     f"({len([o for o in restructured_missing if o.startswith(u + '/')])} baseline obligations not generated); its obligations count only if they replay natively")
     refuted.sort(key=lambda v: (not is_proof_internal(v), v["oid"]))
     for v in refuted:
         w = v["witness"]
@@ -330,7 +354,7 @@ def main():
                     known_printed.append(kf)
         if "crosscheck" in meta["harness_modes"]:
             n = 50 if tier == "quick" else 2000
-            h = run_harness(pid, "crosscheck", n, repo, seed)
+            h = run_harness(pid, "crosscheck", n, repo, seed, timeout=900 if tier == "quick" else 3000)
             cross = _parse_json_tail(h)
             for kf in (cross or {}).get("known_findings", []) if isinstance(cross, dict) else []:
                 if (pid, kf) in known_ids and kf not in known_printed:
@@ -358,7 +382,7 @@ def main():
 
     if violations:
         exit_code = 1
-    elif internal_broken:
+    elif internal_broken or restructured:
         exit_code = 2
     elif checker_errors:
         exit_code = 3
